@@ -7,11 +7,6 @@ pivots never going backwards — and the pivot / shallow-seek step.
 namespace TantivyModel.BlockWand
 open List TantivyModel.Wand
 
-/-- `WF` plus: the full blocks end below `TERMINATED` -/
-structure WFT (x : S) : Prop where
-  wf : WF x
-  blocksLt : ∀ b, b ∈ x.blocks → b.1 < T
-
 /-- the skip reader is not ahead of the block of `max(current doc, last pivot)` -/
 def JOK (P : Nat) (x : S) : Prop := x.skip ≤ x.blockIdx (max x.doc P)
 
@@ -20,20 +15,11 @@ theorem JOK.mono {P P' : Nat} {x : S} (h : JOK P x) (hle : P ≤ P') : JOK P' x 
 
 structure TInv (P θ : Nat) (arr : List S) : Prop where
   sorted : SortedByDoc arr
-  wf : ∀ x, x ∈ arr → WFT x
+  wf : ∀ x, x ∈ arr → WFC x
   j : ∀ x, x ∈ arr → JOK P x
   dead : ∀ d, d < P → massLe arr d ≤ θ
 
-theorem WFT.seek {x : S} (h : WFT x) (t : Nat) : WFT (x.seek t) :=
-  ⟨h.wf.seek t, by rw [seek_blocks]; exact h.blocksLt⟩
-theorem WFT.seekBlock {x : S} (h : WFT x) (t : Nat) : WFT (x.seekBlock t) :=
-  ⟨h.wf.seekBlock t, by rw [seekBlock_blocks]; exact h.blocksLt⟩
-theorem WFT.advance {x : S} (h : WFT x) : WFT x.advance :=
-  ⟨h.wf.advance, by
-    have : x.advance.blocks = x.blocks := by unfold TS.advance; split <;> rfl
-    rw [this]; exact h.blocksLt⟩
-
-theorem lastDocInBlock_le_T {x : S} (h : WFT x) : x.lastDocInBlock ≤ T := by
+theorem lastDocInBlock_le_T {x : S} (h : WFC x) : x.lastDocInBlock ≤ T := by
   unfold TS.lastDocInBlock
   cases hb : x.blocks[x.skip]? with
   | none => exact Nat.le_refl _
